@@ -46,6 +46,75 @@ func parsePolicy(t *toks) *seccomp.Policy {
 	return p
 }
 
+// layoutMode derives the memory layout of a case's policy from the case's name (so that a replay of the one case
+// lays it out the same way)
+func layoutMode(id string) int {
+	h := 0
+	for i := 0; i < len(id); i++ {
+		h = h*31 + int(id[i])
+	}
+	if h < 0 {
+		h = -h
+	}
+	return h % 4
+}
+
+// shareBackingArrays lays the name lists, the conditional entries and the condition lists of ALL groups out as
+// consecutive sub-slices of one array each (what a caller gets who carves a policy out of one big list): every list keeps
+// spare capacity that belongs to its neighbour. Three of four policies of the compile and determ streams are laid out like this, wholly or in part (see mode).
+func shareBackingArrays(p *seccomp.Policy, mode int) {
+	// mode 0: every list owns its array; 1: the lists of all groups are carved out of shared arrays; 2 / 3: only those of
+	// the groups at even / odd positions are (the others lie elsewhere)
+	if mode == 0 {
+		return
+	}
+	shared := func(gi int) bool { return mode == 1 || gi%2 == mode%2 }
+	var names []string
+	var nwcs []seccomp.NameWithConditions
+	var conds []seccomp.Condition
+	for gi, g := range p.Syscalls {
+		if !shared(gi) {
+			continue
+		}
+		names = append(names, g.Names...)
+		for _, w := range g.NamesWithCondtions {
+			conds = append(conds, w.Conditions...)
+		}
+	}
+	// spare room behind the last list too
+	names = append(names, "spare-1", "spare-2")[:len(names)]
+	no, co := 0, 0
+	for gi := range p.Syscalls {
+		if !shared(gi) {
+			continue
+		}
+		g := &p.Syscalls[gi]
+		for wi := range g.NamesWithCondtions {
+			w := &g.NamesWithCondtions[wi]
+			if n := len(w.Conditions); n > 0 {
+				w.Conditions = conds[co : co+n]
+				co += n
+			}
+		}
+		nwcs = append(nwcs, g.NamesWithCondtions...)
+	}
+	wo := 0
+	for gi := range p.Syscalls {
+		if !shared(gi) {
+			continue
+		}
+		g := &p.Syscalls[gi]
+		if n := len(g.Names); n > 0 {
+			g.Names = names[no : no+n]
+			no += n
+		}
+		if n := len(g.NamesWithCondtions); n > 0 {
+			g.NamesWithCondtions = nwcs[wo : wo+n]
+			wo += n
+		}
+	}
+}
+
 func compilePolicy(le bool, archName string, p *seccomp.Policy) (res string) {
 	defer func() {
 		if r := recover(); r != nil {
@@ -187,6 +256,7 @@ func cmdCompile() {
 			le := t.next() == "1"
 			an := t.next()
 			p := parsePolicy(t)
+			shareBackingArrays(p, layoutMode(f[1]))
 			// "@>B": the policy VALUE of the previous case is edited in place (its exported fields are overwritten
 			// with this policy's) and assembled again, for B
 			if (strings.HasPrefix(an, "@>") || strings.HasPrefix(an, "@@>")) && prevPolicy != nil {
